@@ -128,6 +128,41 @@ def run(ctx):
             if check_case(c, violations, dist):
                 distinct.add(json.dumps(vrun.case_json(c), sort_keys=True))
         samples.append(vrun.case_json(cases[7]))
+    # (2b) fields / sub-schemas / rule sets given by registry NAME, registries bound to the validator or module-level
+    import refs
+    import random as _random
+    rrng = _random.Random(ctx["seed"] + 33)
+    for c in vrun.gen_cases(ctx["seed"] + 9, max(200, n // 10), normalization=True, nested_bias=True, p_mismatch=0.15):
+        pos = refs.referenceable(c["schema"])
+        if not pos:
+            continue
+        s2, rdefs, sdefs = refs.substitute(c["schema"], rrng.sample(pos, rrng.randrange(1, min(3, len(pos)) + 1)))
+        rr, sr = refs.make_registries(rdefs, sdefs)
+        c2 = dict(c, schema=s2)
+        n_before = len(violations)
+        if rrng.random() < 0.7:
+            c2["config"] = dict(c["config"], rules_set_registry=rr, schema_registry=sr)
+            dist["references_validator_bound"] += 1
+            check_case(c2, violations, dist)
+        else:
+            saved = (dict(cerberus.rules_set_registry.all()), dict(cerberus.schema_registry.all()))
+            cerberus.rules_set_registry.extend(rr.all()); cerberus.schema_registry.extend(sr.all())
+            dist["references_module_level"] += 1
+            try:
+                check_case(c2, violations, dist)
+            finally:
+                cerberus.rules_set_registry.clear(); cerberus.schema_registry.clear()
+                cerberus.rules_set_registry.extend(saved[0]); cerberus.schema_registry.extend(saved[1])
+        distinct.add(json.dumps(common.jval(s2), sort_keys=True, default=repr))
+        if len(violations) > n_before:
+            # attribution: does the same case with the definitions written inline raise as well?
+            inline = {a: e for a, e in api_calls(c["schema"], c["config"], c["document"], c["update"])}
+            for v in violations[n_before:]:
+                e0 = inline.get(v["_api"])
+                if e0 is None or e0 == "rejected":
+                    v["signature"] += ":by-reference"
+                    v["what"] += " (the same schema with the definitions inline returns normally)"
+                    v.pop("_case", None)      # not shrunk: the registries belong to the case
     # (3) model-vs-code on the exception behaviour of validate(normalize=False)
     cases = vrun.run_cases(vrun.gen_cases(ctx["seed"] + 7, n // 3, p_mismatch=0.3), ctx["driver_ok"])
     dis = 0
